@@ -47,6 +47,9 @@ CHECKS = {
  "C15": dict(cat="fault_enumeration", technique="fault injection at the protocol's audit events (SIGKILL before event k, timed kills after compiler/linker launch, CC-wrapper transient failures, code-generation exception) + process-state snapshots + later-request sequences checked against the oracle",
    text="Every failure kind is followed by requests in the same and another process (must raise, release the lock, leave root-logger handlers/stdout/cwd untouched, and rebuild correctly afterwards); every kill point of the builder is followed by later-request sequences that must return oracle-correct kernels loaded with the marker present, or raise.",
    note="Process death only. One genuine defect found and fixed (handlers not restored on failure).", ref="3/C15"),
+ "C17": dict(cat="exploration", technique="AST interpreter as reference: exhaustive operator-overload matrix vs plain arithmetic; before/after interpretation of every real optimizer.optimize call under a deterministic lazy environment; kernels with passes disabled vs enabled vs oracle",
+   text="All operand-kind pairs x operators (direct, reflected, negation, float_product, MultiIndex.global_index) built through the overloads must evaluate to plain arithmetic on the operand values; every optimize call made while compiling the corpus is replayed (deep copy before, result after) in the bounds-checked interpreter and must write identical values; whole kernels generated with the passes replaced by the identity must agree with the normal kernels and the oracle.",
+   note="The interpreter defines tree values; int/int division excluded; temp_* arrays created by the passes are not outputs.", ref="3/C17"),
 }
 NA_REASON = "check not built yet in this round (runtime monitoring applies; see DESIGN.md section 3)"
 
